@@ -34,6 +34,7 @@ def gen(rng, passes):
         cb = rng.random() < 0.7
         if cb:
             L += [f"def on_{i}():", f"    mon.write(\"click:{i}\")", ""]
+    shared = nb == 2 and "def on_0():" in L and "def on_1():" in L and rng.random() < 0.4
     for i in range(nb):
         pin = 2 + i
         cb = f"def on_{i}():" in L
@@ -44,8 +45,9 @@ def gen(rng, passes):
             pin_src = f"BTN_PIN{i}"
         elif form == "expr":
             pin_src = f"{pin - 1} + 1"
+        h = 0 if (shared and cb) else i   # two buttons may share one handler
         if cb:
-            L.append(f"btn{i} = Button({pin_src}, on_click=on_{i})" if form != "kw" else f"btn{i} = Button(pin={pin_src}, on_click=on_{i})")
+            L.append(f"btn{i} = Button({pin_src}, on_click=on_{h})" if form != "kw" else f"btn{i} = Button(pin={pin_src}, on_click=on_{h})")
         else:
             L.append(f"btn{i} = Button({pin_src})")
         mode = rng.choice(["bursts", "held", "bounce", "start-pressed", "idle"])
@@ -62,35 +64,61 @@ def gen(rng, passes):
             sig = [1] + [1 if rng.random() < 0.6 else 0 for _ in range(n - 1)]
         else:
             sig = [0] * n
+        if i == 1 and rng.random() < (0.7 if shared else 0.25):
+            # both buttons change in the same passes (simultaneous edges)
+            sig = list(info["buttons"][0]["sig"])
         tapes["D"][str(pin)] = sig
-        info["buttons"].append({"name": f"btn{i}", "pin": pin, "cb": cb, "sig": sig, "idx": i})
+        info["buttons"].append({"name": f"btn{i}", "pin": pin, "cb": cb, "sig": sig, "idx": i, "handler": h if cb else None})
     npot = rng.choice([0, 1, 1])
     for i in range(npot):
         apin = rng.choice([0, 1, 3])
+        if rng.random() < 0.3:
+            # the same name first bound to another analogue pin, read once there, then re-declared
+            first = rng.choice([p for p in (0, 1, 2, 3) if p != apin])
+            fvals = [rng.choice([7, 300, 1000])] * 3
+            tapes["A"][str(14 + first)] = fvals
+            L += [f"pot{i} = Potentiometer(\"A{first}\")", f"mon.write(\"@A:pot{i}@first\")", f"mon.write(pot{i}.read())"]
+            info["pots"].append({"name": f"pot{i}@first", "pin": 14 + first, "vals": fvals})
         L.append(f"pot{i} = Potentiometer(\"A{apin}\")")
         vals = [rng.choice([0, 1, 511, 512, 1022, 1023, rng.randint(0, 1023)]) for _ in range(passes * 4 + 4)]
         tapes["A"][str(14 + apin)] = vals
         info["pots"].append({"name": f"pot{i}", "pin": 14 + apin, "vals": vals})
-    nus = rng.choice([0, 1, 1])
+    nus = rng.choice([0, 1, 1, 2])
     for i in range(nus):
         trig, echo = 8 + 2 * i, 9 + 2 * i
         L.append(f"us{i} = Ultrasonic({trig}, {echo})" if rng.random() < 0.5 else f"us{i} = Ultrasonic(trig={trig}, echo={echo}, sensor=\"HC-SR04\")")
         vals = [rng.choice([0, 0, 58, 583, 1166, 5830, 23200, 29999, 30000, 30001, 40000, rng.randint(100, 25000)]) for _ in range(passes * 6 + 6)]
-        if rng.random() < 0.2:
-            vals = [0] * len(vals)
+        if rng.random() < (0.2 if i == 0 else 0.5):
+            vals = [0] * len(vals)   # never an echo: the fallback is this sensor's own (400 cm), not another sensor's reading
+        elif i == 0 and nus == 2:
+            vals[0] = 583            # the first sensor starts with a good reading
         tapes["P"][str(echo)] = vals
         info["us"].append({"name": f"us{i}", "trig": trig, "echo": echo, "vals": vals})
     if not (nb or npot or nus):
         return gen(rng, passes)
     # optional reads in setup
     if info["pots"] and rng.random() < 0.4:
-        L.append(f"mon.write(\"@A:{info['pots'][0]['name']}\")")
-        L.append(f"mon.write({info['pots'][0]['name']}.read())")
+        L.append(f"mon.write(\"@A:{info['pots'][-1]['name']}\")")
+        L.append(f"mon.write({info['pots'][-1]['name']}.read())")
     if info["us"] and rng.random() < 0.4:
         L.append(f"mon.write(\"@U:{info['us'][0]['name']}\")")
         L.append(f"mon.write({info['us'][0]['name']}.measure_distance())")
+    L.append("npass = 0")
     L.append("while True:")
     body = []
+    opened = []
+    for b in info["buttons"]:
+        if rng.random() < 0.35:
+            # the loop body OPENS with first assignments of new names that read the button
+            body.append(f"pressed{b['idx']} = {b['name']}.is_pressed()")
+            opened.append(b)
+    if opened and rng.random() < 0.5:
+        body.append("seen = npass")
+    body.append("npass += 1")
+    for b in opened:
+        body.append(f"mon.write(\"@B:{b['name']}\")")
+        body.append(f"mon.write(pressed{b['idx']})")
+    nested_us = rng.random() < 0.3
     for b in info["buttons"]:
         for _ in range(rng.choice([0, 1, 1, 2])):
             body.append(f"mon.write(\"@B:{b['name']}\")")
@@ -104,6 +132,8 @@ def gen(rng, passes):
             body.append(f"    spin{b['idx']} += 1")
             body.append(f"mon.write(spin{b['idx']})")
     for p in info["pots"]:
+        if "@first" in p["name"]:
+            continue
         for _ in range(rng.choice([1, 1, 2, 3])):
             body.append(f"mon.write(\"@A:{p['name']}\")")
             if rng.random() < 0.5:
@@ -112,6 +142,8 @@ def gen(rng, passes):
                 body.append(f"pv = {p['name']}.read()")
                 body.append("mon.write(pv)")
     for p in info["pots"]:
+        if "@first" in p["name"]:
+            continue
         if rng.random() < 0.3:
             # two reads in one parallel assignment are two conversions
             body.append(f"mon.write(\"@A:{p['name']}\")")
@@ -120,15 +152,20 @@ def gen(rng, passes):
             body.append(f"mon.write(\"@A2:{p['name']}\")")
             body.append("mon.write(rb)")
     for u in info["us"]:
+        pre = ""
+        if nested_us:
+            # the sensor is only ever read inside a nested block
+            body.append("if npass > 0:")
+            pre = "    "
         for _ in range(rng.choice([1, 1, 2])):
-            body.append(f"mon.write(\"@U:{u['name']}\")")
-            if rng.random() < 0.5:
-                body.append(f"mon.write({u['name']}.measure_distance())")
+            body.append(f"{pre}mon.write(\"@U:{u['name']}\")")
+            if rng.random() < 0.5 or nested_us:
+                body.append(f"{pre}mon.write({u['name']}.measure_distance())")
             else:
                 body.append(f"dist = {u['name']}.measure_distance()")
                 body.append("mon.write(dist)")
             if rng.random() < 0.5:
-                body.append(f"sleep({rng.choice([0, 1, 30, 59, 60, 61, 200])})")
+                body.append(f"{pre}sleep({rng.choice([0, 1, 30, 59, 60, 61, 200])})")
     rng.shuffle(body) if False else None
     body.append(f"sleep({rng.choice([0, 1, 30, 59, 60, 61, 200])})")
     L += ["    " + b for b in body]
@@ -176,13 +213,40 @@ def monitor(events, info, passes):
                 problems.append(("button-sample-count", f"{b['name']}: {dr.get(k, 0)} digitalRead of pin {pin} in pass {k}, expected exactly 1"))
             rising = bool(sample(k)) and not bool(sample(k - 1))
             want = 1 if (rising and b["cb"]) else 0
-            if clicks.get(k, 0) != want:
+            sharing = [o for o in info["buttons"] if o.get("handler") is not None and o.get("handler") == b.get("handler")]
+            if len(sharing) > 1 or (b["cb"] and b.get("handler") != b["idx"]):
+                pass  # judged per handler below
+            elif clicks.get(k, 0) != want:
                 problems.append(("button-click", f"{b['name']}: on_click ran {clicks.get(k, 0)}x in pass {k} (sample {sample(k - 1)}->{sample(k)}), expected {want}"))
             for p in prints.get(k, []):
                 if p != str(int(bool(sample(k)))):
                     problems.append(("button-value", f"{b['name']}: is_pressed() printed {p} in pass {k}, sample is {sample(k)}"))
         if clicks.get(-1, 0):
             problems.append(("button-click-startup", f"{b['name']}: on_click ran at start-up"))
+    # ---- handlers shared by several buttons: one run per rising edge of EACH button
+    handlers = {}
+    for b in info["buttons"]:
+        if b.get("handler") is not None:
+            handlers.setdefault(b["handler"], []).append(b)
+    for h, bs in handlers.items():
+        if len(bs) < 2:
+            continue
+        ran = {}
+        cur_pass = -1
+        for t, kind, f in events:
+            if kind == "PASS":
+                cur_pass = int(f[0])
+            elif kind == "SER" and trace.unesc(f[0]) == f"click:{h}":
+                ran[cur_pass] = ran.get(cur_pass, 0) + 1
+        for k in range(passes):
+            want = 0
+            for b in bs:
+                sig = b["sig"]
+                now = sig[k + 1] if k + 1 < len(sig) else sig[-1]
+                before = sig[k] if k < len(sig) else sig[-1]
+                want += 1 if (now and not before) else 0
+            if ran.get(k, 0) != want:
+                problems.append(("button-click-shared", f"handler on_{h} shared by {[b['name'] for b in bs]} ran {ran.get(k, 0)}x in pass {k}, {want} rising edges"))
     # ---- potentiometers
     for p in info["pots"]:
         vals = list(p["vals"])
